@@ -174,3 +174,49 @@ func VerifC10_q_releaseVsRebind() { vpReleaseVsRebind("C10") }
 // BOUND: cloud provider configured; topology 0 with all but one address held by other pods; a statefulset pod (symbolic policy) bound and running; a standby instance of galaxy-ipam has an informer cache that stops following at that point; the pod is deleted, its event handled, the same-named pod re-created, bound by the active instance and running; then the standby takes over (new plugin, tables rebuilt from the shared store, but its lagging informer cache: it still holds the first incarnation) and runs one resync pass (and the pod-IP sync pass) before its cache catches up, then another one afterwards. The live pod keeps its IP throughout (the stale cache's answer has to be confirmed with the API server; one of the pass's pod GETs may fail at a symbolic position, answered as the real typed client does: an empty object plus the error)
 // ASSUME: C10: same scenario as VerifC04_q_failoverStaleCache with the recording provider, checked under C10
 func VerifC10_q_failoverStaleCache() { vpFailoverStaleCache("C10") }
+
+// BOUND: cloud provider configured; topology 0; a statefulset pod (symbolic policy) bound on any approved node among n1,n5,n3 and running; its allocation record is lost from the store (store loss / restore from an older backup) and galaxy-ipam restarts on that store; the pod-IP sync pass re-adopts the address for the running pod; then the pod is deleted, its event handled, one resync pass, and the same-named pod is re-created and bound on any approved node. The provider's per-IP state machine asserts inside every AssignIP / UnAssignIP and every store delete / re-key: the address must be unassigned at the node it is assigned to before it is freed or assigned elsewhere
+func VerifC10_q_recordLostReadopted() {
+	w := vpNewWorld(0, true)
+	if err := w.configure(); err != nil {
+		return
+	}
+	w.setStatefulSet(2)
+	policy := nondetPick("", "immutable", "never")
+	name := "ss-0"
+	w.createPod(vpMakePod(name, "U1", vpKindSts, policy, "", ""))
+	w.syncListers()
+	nodes, err := w.filter(name, "n1", "n5", "n3")
+	if err != nil || len(nodes) == 0 || w.bind(name, nodes[nondetChoice(len(nodes))]) != nil {
+		return
+	}
+	w.setRunning(name)
+	w.syncListers()
+	ip := vpBoundIPs(w.pods[name])[0]
+	w.store.Mu.Lock()
+	delete(w.store.Objs, ip)
+	w.store.Mu.Unlock()
+	if w.restart() != nil {
+		return
+	}
+	w.resync() // the pod-IP sync pass finds the running pod's address unallocated and re-adopts it
+	verifReach("record-readopted")
+	w.checkAll("C10", "the re-adoption of a running pod's address whose record was lost")
+	w.deletePod(name)
+	w.syncListers()
+	for len(w.pending) > 0 {
+		_ = w.handleEvent(0)
+	}
+	w.resync()
+	w.checkAll("C10", "the end of a pod whose address had been re-adopted")
+	w.createPod(vpMakePod(name, "U2", vpKindSts, policy, "", ""))
+	w.syncListers()
+	if nodes, err := w.filter(name, "n1", "n5", "n3"); err == nil && len(nodes) > 0 {
+		if w.bind(name, nodes[nondetChoice(len(nodes))]) == nil {
+			w.setRunning(name)
+			w.syncListers()
+		}
+	}
+	verifReach("rebound-after-readoption")
+	w.checkAll("C10", "binding the next incarnation after a re-adoption")
+}
